@@ -604,6 +604,40 @@ def t_every_other_number(ctx):
                         'unusual integers as the server answer')
 
 
+def t_status_lengths(ctx, lo, hi):
+    """status replies of every frame length in a window (and around the
+    2- / 3-byte length-prefix boundaries): the frame is whatever its length
+    prefix says, whatever the first byte of that prefix looks like"""
+    sup, names, known = tables()
+    p = sup[len(sup) // 2]
+    other = sup[0]
+    lengths = list(range(lo, hi)) + \
+        ([16381, 16382, 16383, 16384, 16385, 16511, 32767]
+         if lo <= 255 < hi else [])
+    for L in lengths:
+        base = {'version': {'protocol': p, 'name': 'x'},
+                'description': {'text': ''}}
+        n0 = len(json.dumps(base))
+        # frame = id (1 byte) + VarInt(n) + n bytes of JSON
+        n = L - 1 - (1 if L - 2 < 128 else 2 if L - 3 < 16384 else 3)
+        if n < n0:
+            continue
+        base['description']['text'] = 'm' * (n - n0)
+        js = json.dumps(base)
+        if len(js) != n:
+            continue
+        reply = {'kind': 'proto', 'protocol': p, 'name': 'x', 'json': js}
+        scenario_case(ctx, {'allowed': [(other, 'num'), (p, 'num')],
+                            'default': None, 'reply': reply,
+                            'entry': 'connect', 'username': 'u'})
+        if L % 16 == 15:
+            scenario_case(ctx, {'allowed': None, 'default': None,
+                                'reply': reply, 'entry': 'status',
+                                'username': 'u', 'hs': 'fn', 'hp': 'fn'})
+    ctx.exhaustive_done('status reply frames of every length %d..%d'
+                        % (lo, hi - 1))
+
+
 def t_every_name(ctx, lo, hi):
     """every version id in the records, given as the single allowed version
     and as the default version: accepted exactly when that record is marked
@@ -673,6 +707,9 @@ def tasks(tier):
     n = len(sup)
     tl = [('status_modes', t_status_modes, {}),
           ('every_other_number', t_every_other_number, {})]
+    for i in range(3):
+        tl.append(('status_lengths_%d' % i, t_status_lengths,
+                   dict(lo=80 + 150 * i, hi=80 + 150 * (i + 1))))
     nsh = 5
     for i in range(nsh):
         tl.append(('every_protocol_%d' % i, t_every_protocol,
